@@ -998,6 +998,21 @@ func (m *fullMon) onCall(c *APICall) {
 			delete(m.pendingVerify, c.Task)
 		}
 	}
+	if c.Ctrl == "cron" && c.Res == ResJobs {
+		// causal marker for the residual double fault of the scheduled-Job creation path
+		switch c.Verb {
+		case "create":
+			delete(m.pendingVerify, c.Task)
+			if c.Fault == "lostack" && c.Err == nil {
+				m.pendingVerify[c.Task] = c.Name
+			}
+		case "get":
+			if name, ok := m.pendingVerify[c.Task]; ok && name == c.Name && (c.Fault != "" || c.Err != nil) {
+				m.w.Sim.Note("create of scheduled Job %s/%s lost its ack and the verifying read failed as well", c.NS, c.Name)
+			}
+			delete(m.pendingVerify, c.Task)
+		}
+	}
 	switch {
 	case c.Ctrl == "job" || c.Ctrl == "anon":
 		if c.Verb == "delete" && c.Res == ResPods && c.Fault != "drop" && c.Fault != "unavailable" && c.Fault != "throttle" {
